@@ -50,7 +50,7 @@ Reset ==
     /\ rpc' = [x \in ConnIds |-> "off"] /\ rmsg' = [x \in ConnIds |-> None] /\ rw' = [x \in ConnIds |-> None]
     /\ tclosed' = FALSE /\ tm' = "free" /\ conns' = {} /\ idle' = {} /\ tctx' = FALSE /\ cl' = "idle"
     /\ nd' = 0 /\ dl' = [d \in ConnIds |-> [owner |-> 0, st |-> "unused"]] /\ spawn' = {}
-    /\ panic' = FALSE /\ hist' = <<>>
+    /\ panic' = FALSE /\ unexp' = FALSE /\ hist' = <<>>
 
 \* the closing variants of the actions that may call Close() on connection x
 ClosesNow(x) ==
@@ -94,7 +94,7 @@ Silent ==
     /\ \/ \E c \in Calls : \/ GetIdle(c) \/ LeaveCtx(c) \/ LeaveClosed(c) \/ Install(c) \/ TakeReply(c)
                             \/ SeeClose(c) \/ SeeCtx(c) \/ Retry(c) \/ Fail(c) \/ CallCweA(c)
                             \/ (pc[c] = "cweB" /\ ~CweWillClose(c, cur[c]) /\ CallCweB(c))
-       \/ \E x \in ConnIds : \/ Take(x) \/ SetIdle(x) \/ Hand(x) \/ RdrCweA(x)
+       \/ \E x \in ConnIds : \/ Take(x) \/ Forget(x) \/ SetIdle(x) \/ Hand(x) \/ RdrCweA(x)
                               \/ (~CweWillClose(RDR, x) /\ RdrCweB(x))
                               \/ (~tclosed /\ Register(x)) \/ HandOver(x) \/ Abandon(x)
                               \/ (once[x] # FREE /\ TCloseOne(x))
